@@ -5,7 +5,7 @@
    the L1 correspondence in harness/props/c08.py on every run (field names rendered to the real
    strings, value lists compared exactly, marker experiment through the real convert_to_acc_ops). *)
 From Snax Require Import Base.Prelude Model.C08StreamerCfg Model.C08Accels Model.C08Sem
-  Proofs.C08StreamerProofs Proofs.C08AccelProofs Proofs.C08SemProofs.
+  Proofs.C08StreamerProofs Proofs.C08AccelProofs Proofs.C08SemProofs Proofs.C08PackProofs.
 
 (* 1. Regular-system streamers, EVERY configuration (any number <= 26 of streamers, any temporal
       flags, any spatial dims, any option list) and every op the generator accepts: the value list
@@ -170,3 +170,25 @@ Theorem C08_loop_count_gemmx_m :
   prod_nonreducing p = steps (map (fun bs => if snd bs =? 0 then 1 else fst bs) (combine (p_ub p) (p_ts p))) (p_ts p).
 Proof. exact loop_count_gemmx_m. Qed.
 Print Assumptions C08_loop_count_gemmx_m.
+
+(* 11. Packed CSRs: after `& 255` the 8-bit fields of csr0 (min | max | out_zp | in_zp) and of
+       subtractions (zp_b | zp_a) do not overlap — the or of the shifted fields is their sum, for all
+       (also negative) inputs, so each field can be read back from the register. *)
+Theorem C08_pack_csr0_value :
+  forall env mn mx zo zi,
+  geval env (pack_csr0 mn mx zo zi)
+  = (mn mod 256) * 2 ^ 24 + (mx mod 256) * 2 ^ 16 + (zo mod 256) * 2 ^ 8 + zi mod 256.
+Proof. exact pack_csr0_value. Qed.
+Print Assumptions C08_pack_csr0_value.
+Theorem C08_pack_subtractions_value :
+  forall env a b,
+  geval env (GPack [(GAnd255 a, 0); (GAnd255 b, 8)])
+  = (geval env a) mod 256 + ((geval env b) mod 256) * 2 ^ 8.
+Proof. exact pack_subtractions_value. Qed.
+Print Assumptions C08_pack_subtractions_value.
+Theorem C08_csr0_fields_recoverable :
+  forall env mn mx zo zi, let v := geval env (pack_csr0 mn mx zo zi) in
+  v mod 256 = zi mod 256 /\ (v / 2 ^ 8) mod 256 = zo mod 256 /\
+  (v / 2 ^ 16) mod 256 = mx mod 256 /\ (v / 2 ^ 24) mod 256 = mn mod 256.
+Proof. exact csr0_fields_recoverable. Qed.
+Print Assumptions C08_csr0_fields_recoverable.
